@@ -195,6 +195,28 @@ def run_shard(sh):
                 {'width': 79, 'ribbon_width': 71, 'indent': 4, 'sort_dict_keys': False}]
         run_case(sh, recipe, cfgs, 'sorting')
         sh.counters['key-sorting cases'] += 1
+    # (e) big containers: sizes around the round numbers where a bulk / chunked code path would plausibly start (max_seq_len=None: nothing is cut)
+    sizes = [49, 50, 51, 100, 127, 128, 129, 255, 256, 257, 999, 1000, 1001, 1024, 2000] if quick else list(range(45, 60)) + list(range(95, 135)) + [255, 256, 257, 511, 512, 513, 999, 1000, 1001, 1023, 1024, 1025, 2000, 4096, 5000, 10000]
+    for n_el in sizes:
+        for kind in ('list', 'tuple', 'set', 'frozenset', 'dict', 'dict-of-str', 'nested'):
+            idx += 1
+            if not sh.mine(idx):
+                continue
+            rng = V.rng_for('c01e', sh.seed, n_el, kind)
+            def leaf(j):
+                return rng.choice([['int', j], ['str', 'k%d' % j], ['float', repr(j + 0.5)], ['bytes', 'b%d' % j], ['tuple', [['int', j], ['str', 'x']]]])
+            if kind in ('list', 'tuple', 'set', 'frozenset'):
+                recipe = [kind, [leaf(j) for j in range(n_el)]]
+            elif kind == 'dict':
+                recipe = ['dict', [[leaf(j), leaf(j + n_el)] for j in range(n_el)]]
+            elif kind == 'dict-of-str':
+                recipe = ['dict', [[['str', 'key%05d' % ((j * 7919) % n_el)], ['int', j]] for j in range(n_el)]]
+            else:
+                recipe = ['list', [['int', 0], ['dict', [[['str', 'rows'], ['list', [['tuple', [['int', j], ['str', 'r']]] for j in range(n_el)]]]]]]]
+            cfgs = [{'width': 79, 'ribbon_width': 71, 'indent': 4, 'sort_dict_keys': kind == 'dict-of-str', 'max_seq_len': None},
+                    {'width': rng.choice([20, 200, 10 ** 5]), 'ribbon_width': rng.choice([20, 150, 10 ** 5]), 'indent': rng.choice([1, 2, 8]), 'sort_dict_keys': False, 'max_seq_len': n_el}]
+            run_case(sh, recipe, cfgs, 'big-%d' % n_el)
+            sh.counters['big containers (45 .. 10000 elements)'] += 1
     for k, v in M.COUNTS.items():
         sh.counters['contract calls: ' + k] += v
 
